@@ -754,6 +754,58 @@ func runRows(e *core.Env, prop string) error {
 			}
 			_ = fc
 			impl := runIt()
+			if l.tag == "matching" && prop == "C11" && strings.HasPrefix(impl, "ok ") {
+				// the declaration as the DATABASE path builds it (no ValidateFix), with a table that lacks the column
+				// of one selected data input: PostgreSQL refuses a COPY that names an empty column; if a COPY is
+				// made all the same, every column it names holds the value the complete declaration puts there
+				var dataLeaves []*aty
+				for _, lf := range ec.selLeaf {
+					if !lf.indexed {
+						dataLeaves = append(dataLeaves, lf)
+					}
+				}
+				if len(dataLeaves) >= 2 {
+					drop := dataLeaves[r.Intn(len(dataLeaves)-1)].col // not the last one: a later input follows
+					tb := cig.Table
+					tb.Columns = nil
+					for _, c := range cig.Table.Columns {
+						if c.Name != drop {
+							tb.Columns = append(tb.Columns, c)
+						}
+					}
+					verdict := "ok"
+					if partial, err := dig.New(cig.Name, cig.Event, cig.Block, tb, cig.Notification, cig.FilterAGG); err == nil {
+						fa, fb := &fakeConn{refs: map[string]map[string]bool{"reft.refc": refSet}}, &fakeConn{refs: map[string]map[string]bool{"reft.refc": refSet}}
+						out := core.Protect(func() string {
+							if _, err := ig.Insert(e2eCtx("src1", 7), &mu, fa, []eth.Block{b2}); err != nil {
+								return "err-complete"
+							}
+							if _, err := partial.Insert(e2eCtx("src1", 7), &mu, fb, []eth.Block{b2}); err != nil {
+								return "err"
+							}
+							return "ok"
+						})
+						if out == "ok" && len(fa.copies) == 1 && len(fb.copies) == 1 && len(fa.copies[0].Rows) == len(fb.copies[0].Rows) {
+							refused := false
+							for _, c := range fb.copies[0].Cols {
+								refused = refused || c == ""
+							}
+							if !refused {
+								am := copyRowMaps(fa.copies[0])
+								for ri, bm := range copyRowMaps(fb.copies[0]) {
+									for c, v := range bm {
+										if av, ok := am[ri][c]; ok && av != v {
+											verdict = fmt.Sprintf("table without column %q: row %d stores %s in column %q, the complete declaration stores %s there", drop, ri, v, c, av)
+										}
+									}
+								}
+							}
+						}
+					}
+					e.Add(core.Case{Impl: verdict, Spec: "ok", Key: "missing-column " + ec.desc, Nontrivial: true, Tags: []string{"declaration-from-database", "table-lacks-a-selected-column"},
+						Detail: map[string]any{"event": ev, "dropped_column": drop}})
+				}
+			}
 			if l.tag == "matching" {
 				prevRerun, prevImpl, prevKey = runIt, impl, ec.desc
 				// anything else hashing in the same process (another integration being built, a transaction
@@ -783,6 +835,38 @@ func runRows(e *core.Env, prop string) error {
 					Oracle:     fmt.Sprintf("ptxspec %s %s %s %s %s", aggTok, strings.Join(bsp, ";"), refsTok, strings.Join(ctxs, ";"), quoteImpl(impl)),
 					Nontrivial: nActive > 0, Tags: []string{"ptx", "impl:" + strings.SplitN(impl, " ", 2)[0]}, Key: op,
 					Detail: map[string]any{"block": cig.Block, "agg": cig.FilterAGG}})
+				if igRaw != nil {
+					// the same transaction through the declaration as the database path builds it (aggregation as written)
+					fcr := &fakeConn{refs: map[string]map[string]bool{"reft.refc": refSet}}
+					implRaw := core.Protect(func() string {
+						if _, err := igRaw.Insert(e2eCtx("src1", 7), &mu, fcr, []eth.Block{b2}); err != nil {
+							return "err"
+						}
+						if len(fcr.copies) != 1 {
+							return fmt.Sprintf("copies=%d", len(fcr.copies))
+						}
+						var rows []string
+						for _, row := range fcr.copies[0].Rows {
+							var cs []string
+							for _, c := range row {
+								cs = append(cs, renderVal(c))
+							}
+							rows = append(rows, strings.Join(cs, ","))
+						}
+						if len(rows) == 0 {
+							return "ok"
+						}
+						return "ok " + strings.Join(rows, ";")
+					})
+					rawTok := strings.ToLower(rawAgg)
+					if rawTok == "" {
+						rawTok = "-"
+					}
+					e.Add(core.Case{Op: fmt.Sprintf("ptx %s %s %s %s", rawTok, strings.Join(bsp, ";"), refsTok, strings.Join(ctxs, ";")), Impl: implRaw,
+						Oracle:     fmt.Sprintf("ptxspec %s %s %s %s %s", rawTok, strings.Join(bsp, ";"), refsTok, strings.Join(ctxs, ";"), quoteImpl(implRaw)),
+						Nontrivial: nActive > 0, Tags: []string{"ptx", "declaration-from-database", "agg-as-written=" + rawAgg, "impl:" + strings.SplitN(implRaw, " ", 2)[0]},
+						Key:        "raw " + op, Detail: map[string]any{"block": cig.Block, "agg": rawAgg}})
+				}
 				break
 			}
 			if prop == "C12" && l.tag == "matching" && strings.HasPrefix(impl, "ok ") {
